@@ -1404,6 +1404,7 @@ func runC14(r *Run) {
 	keys := []string{"a", "b", "c", "d", "e", "f", "g", "h", "i", "j", "k", "l", "m", "n", "o", "p", "q"}
 	numKeys := []string{"7", "07", "+7", "9", "10", "1a", "-0", "0", "00", "1e3", "0x10", "010", "8", "08", "1_0", "007", "7.0", "a"} // keys a "numeric aware" order ties or cycles on
 	oddKeys := []string{"k\xfe", "k\xff", "\xff", "\ufffd", "k\xc0", "a", "", "é", "e\u0301", "z", "not", "0", "true", "-0", "NaN", "in", "k\x00", "K"}
+	caseKeys := []string{"name", "Name", "NAME", "nAME", "a", "A", "b", "B", "é", "É", "ß", "SS", "ss", "ı", "I", "i", "İ", "k"} // keys that a case-folding order ties
 	for i := 0; i < n; i++ {
 		rng = NewRng(mix(r.Seed, strHash("C14"), uint64(i)))
 		sz := 2 + rng.Intn(16)
@@ -1415,6 +1416,9 @@ func runC14(r *Run) {
 				ks = oddKeys // keys that differ only in an invalid byte, or only after normalisation
 			} else if i%3 == 2 {
 				ks = numKeys
+			}
+			if i%7 == 3 {
+				ks = caseKeys
 			}
 			for j := 0; j < sz; j++ {
 				m[ks[j]] = elems[rr.Intn(len(elems))]
